@@ -360,7 +360,8 @@ def local_ham(cx):
 @driver("C11", "trotter-gates", chunks=4, timeout=240,
         bound="trotter_schedule for 0..7 layers, orders 1, 2, 4; LocalHam1D (L 2..6, open / periodic, d=2) and LocalHamGen "
               "(3..5 nodes) get_trotter_gates for orders 1, 2, 4, steps 1..3, fuse / alternate on and off, explicit and "
-              "automatic layerings, complex exponents; build_mpo_propagator_trotterized orders 1, 2, 4: product of the embedded "
+              "automatic layerings, complex exponents; build_mpo_propagator_trotterized (L <= 5; order 2 periodic L <= 4; order 4 "
+              "open L <= 3; larger cases are skipped because the uncompressed MPO bond grows by 4 per gate): product of the embedded "
               "gates == the product formula written out with scipy expm; error vs expm(xH) shrinks by 2^(order+1) per halving")
 def trotter(cx):
     import scipy.linalg as sla
@@ -416,9 +417,13 @@ def trotter(cx):
         ordering = ("sort", None, "explicit", "smallest_last")[int(rng.integers(4))]
         kind = ("1d", "1d-cyclic", "gen")[int(rng.integers(3))]
         x = (0.15, -0.2j, 0.05 - 0.1j)[int(rng.integers(3))]
-        p = dict(order=order, steps=steps, fuse_adjacent=fuse, alternate=alt, ordering=str(ordering), kind=kind, x=str(x), seed=seed)
+        Lsz = int(rng.integers(2, 7))
+        if kind == "1d-cyclic":
+            Lsz = max(Lsz, 3)
+        p = dict(order=order, steps=steps, fuse_adjacent=fuse, alternate=alt, ordering=str(ordering), kind=kind, x=str(x), seed=seed,
+                 L=Lsz if kind != "gen" else None)
 
-        def build(r, kind):
+        def build(r, kind, Lsz=Lsz):
             if kind == "gen":
                 n = int(r.integers(3, 6))
                 nodes = list(range(n))
@@ -430,7 +435,7 @@ def trotter(cx):
                 spec = _Spec(r, nodes, edges, 2, True, "explicit", "some", 0.3)
                 return qtn.LocalHamGen(H2=spec.H2, H1=spec.H1), spec
             cyc = kind == "1d-cyclic"
-            L = int(r.integers(3 if cyc else 2, 7))
+            L = Lsz
             nn = [(i, (i + 1) % L) for i in range(L - 1 + int(cyc))]
             spec = _Spec(r, list(range(L)), nn, 2, True, "explicit", "default+some", 0.3)
             return qtn.LocalHam1D(L, H2=spec.H2, H1=spec.H1, cyclic=cyc), spec
@@ -510,7 +515,9 @@ def trotter(cx):
         cx.check("get_trotter_gates: gates == expm(frac x term), product == written-out product formula, converges at the order",
                  p, t_gates)
 
-        if kind != "gen":
+        # the uncompressed propagator MPO gains a factor <= 4 in bond dimension per gate on a pair: bounded sizes only
+        too_big = (order == 4 and (Lsz > 3 or kind == "1d-cyclic")) or (order == 2 and kind == "1d-cyclic" and Lsz > 4) or Lsz > 5
+        if kind != "gen" and not too_big:
             def t_mpo(order=order, kind=kind, x=x, seed=seed):
                 r = np.random.default_rng(seed)
                 ham, spec = build(r, kind)
@@ -537,7 +544,7 @@ def trotter(cx):
                 return None
 
             cx.check("build_mpo_propagator_trotterized(x, order).to_dense() == product of the Trotter gates, converges to expm(xH)",
-                     dict(order=order, kind=kind, x=str(x), seed=seed), t_mpo)
+                     dict(order=order, kind=kind, x=str(x), seed=seed, L=Lsz), t_mpo)
 
 
 # ----------------------------------------------------------------------------------------------
